@@ -7,6 +7,7 @@
    Executable definitions only (proofs: Proofs/PackageP.v). *)
 From Coq Require Import List String Ascii Bool Arith.
 From AC Require Import Base.Strs Base.Sexp Model.Names Model.Init.
+From AC Require Py.Ann Model.Rebuild.
 Import ListNotations.
 Local Open Scope string_scope.
 Local Open Scope list_scope.
@@ -294,6 +295,24 @@ Definition run_package (e : sexp) : sexp :=
       | None, _, _ => sErr "package: bad cfg"
       | _, None, _ => sErr "package: bad summary"
       | _, _, None => sErr "package: bad ops"
+      end
+  | L [A "rebuilds"; tops; cls] =>
+      (* classes of one generated module as (name, one flag per field: the annotation contains a quoted class);
+         answer: the model_rebuild() calls of an operation module / of the fragments module with these top-level names *)
+      let dcls := dList (fun e => match e with
+                                  | L [A n; fl] => option_map (fun bs => (n, bs)) (dList dB fl)
+                                  | _ => None end) cls in
+      match dList dStr tops, dcls with
+      | Some tops', Some cls' =>
+          let mk := fun p : string * list bool =>
+            {| Py.Ann.c_name := fst p; Py.Ann.c_bases := [];
+               Py.Ann.c_fields := map (fun b : bool =>
+                 {| Py.Ann.p_name := ""; Py.Ann.p_alias := None;
+                    Py.Ann.p_ann := if b then Py.Ann.AClass "" else Py.Ann.AStr;
+                    Py.Ann.p_default_none := false; Py.Ann.p_discriminator := false |}) (snd p) |} in
+          let pcs := map mk cls' in
+          L [L (map A (Model.Rebuild.op_rebuild_calls pcs)); L (map A (Model.Rebuild.frag_rebuild_calls tops' pcs))]
+      | _, _ => sErr "rebuilds: cannot decode"
       end
   | L [A "module"; A n] => sC (op_module (s2l n))
   | L [A "sort"; l] => match dCs l with Some l' => sCs (sort_chars l') | None => sErr "sort" end
